@@ -91,6 +91,10 @@ func c09Run(hist []c09Action) (res vh.HistResult) {
 	return
 }
 
+// c09Prev: the predecessor every version announces ("" = none). With a predecessor that never
+// arrives a completed version is validated and then held in staging instead of being delivered.
+var c09Prev = ""
+
 var stT *testing.T
 
 func c09RunIn(hist []c09Action) vh.HistResult {
@@ -109,7 +113,7 @@ func c09RunIn(hist []c09Action) vh.HistResult {
 			res.Enabled = false
 			return res
 		}
-		p := part(v, "", a.B, a.E)
+		p := part(v, c09Prev, a.B, a.E)
 		data := v.Data[a.B:a.E]
 		if a.Op == "short" {
 			data = data[:len(data)-1]
@@ -164,17 +168,22 @@ func c09RunIn(hist []c09Action) vh.HistResult {
 		}
 		completedNow := st != stateUnknown && m.cur != "" && stHash == vs[m.cur].Hash &&
 			(prevState == stateUnknown || prevState == stateFailed || prevHash != stHash) && err == nil
-		// the body the record describes: the complete one (.full / .wait) while the stage works on
-		// it; the partial in progress when there is none or when the complete one failed validation
-		var body []byte
-		exts := []string{partExt, fullExt, waitExt}
-		if st == stateFailed || st == stateUnknown {
-			exts = []string{waitExt, fullExt, partExt}
-		}
-		for _, ext := range exts {
-			if b, ok := w.staged("d/f", ext); ok {
-				body = b
+		// the body a claim about version `hash` refers to: the complete one (.full / .wait) when the
+		// stage knows that version as complete (and not failed), else the partial in progress
+		bodyFor := func(hash string) []byte {
+			if st != stateFailed && st != stateUnknown && stHash == hash {
+				for _, ext := range []string{waitExt, fullExt} {
+					if b, ok := w.staged("d/f", ext); ok {
+						return b
+					}
+				}
 			}
+			for _, ext := range []string{partExt, fullExt, waitExt} {
+				if b, ok := w.staged("d/f", ext); ok {
+					return b
+				}
+			}
+			return nil
 		}
 		if _, partLeft := w.staged("d/f", partExt); partLeft {
 			completedNow = false // Prepare creates <name>.part, completion renames it
@@ -192,6 +201,7 @@ func c09RunIn(hist []c09Action) vh.HistResult {
 				res.Viol = desc() + ": partial listing names an unknown hash " + listed.Hash
 				return res
 			}
+			body := bodyFor(listed.Hash)
 			for _, r := range listed.Parts {
 				if r.End > int64(len(body)) || r.Beg < 0 || r.End > int64(len(lv.Data)) || !m.holds(body, lv, m.cur != "" && lv == vs[m.cur], r.Beg, r.End) {
 					res.Viol = fmt.Sprintf("%s: the partial listing claims range [%d,%d) of version %s, but the staged file holds %q there (source %q)", desc(), r.Beg, r.End, lv.Hash[:6], safeSlice(body, r.Beg, r.End), safeSlice(lv.Data, r.Beg, r.End))
@@ -208,10 +218,11 @@ func c09RunIn(hist []c09Action) vh.HistResult {
 			q := vs[qn]
 			for b := int64(0); b < int64(len(q.Data)); b += 2 {
 				for e := b + 2; e <= int64(len(q.Data)); e += 2 {
-					n := w.st.Received([]sts.Binned{part(q, "", b, e)})
+					n := w.st.Received([]sts.Binned{part(q, c09Prev, b, e)})
 					if n != 1 {
 						continue
 					}
+					body := bodyFor(q.Hash)
 					held := m.holds(body, q, qn == m.cur, b, e)
 					for _, c := range delivered {
 						if c == "d/f "+q.Hash {
@@ -317,9 +328,20 @@ func safeSlice(b []byte, beg, end int64) string {
 	return string(b[beg:end])
 }
 
-func TestC09(t *testing.T) {
+func TestC09(t *testing.T) { runC09(t, "part sequences on one file (E-HIST)", "", 0) }
+
+// TestC09Held: the same part sequences on a file whose versions announce a predecessor that
+// never arrives: a completed version is validated and held (its body is <name>.wait) while the
+// parts of other versions keep coming.
+func TestC09Held(t *testing.T) {
+	runC09(t, "part sequences on a file that is held for its predecessor once complete (E-HIST)", "q/never", -1)
+}
+
+func runC09(t *testing.T, partName, prev string, depthAdj int) {
 	stT = t
-	rep := vh.NewReport("C09", "part sequences on one file (E-HIST)")
+	c09Prev = prev
+	defer func() { c09Prev = "" }()
+	rep := vh.NewReport("C09", partName)
 	defer rep.Write()
 	var rc []c09Action
 	if vh.ReplaySpec(&rc) {
@@ -334,6 +356,7 @@ func TestC09(t *testing.T) {
 	if vh.Thorough() {
 		depth = 5
 	}
+	depth += depthAdj
 	var alpha []c09Action
 	for b := int64(0); b < 8; b += 2 {
 		for e := b + 2; e <= 8; e += 2 {
@@ -359,5 +382,9 @@ func TestC09(t *testing.T) {
 		NonTrivial: func(hist []c09Action, r vh.HistResult) bool { return len(hist) >= 2 },
 	}
 	h.Explore()
-	rep.Bound = fmt.Sprintf("all sequences of <=%d parts of one 8-byte file: the 10 intervals on cut points {0,2,4,6,8} (disjoint, adjacent, identical, nested, overlapping), 3 short-reading readers, one part damaged in transit (the file then fails validation and is transmitted again), 4 parts of a same-size version with another hash, 3 parts of a version with another size; after every step: Scan, Received for every interval of every version, completion and retention checks", depth)
+	held := ""
+	if prev != "" {
+		held = " (every version announces a predecessor that never arrives)"
+	}
+	rep.Bound = held + fmt.Sprintf("all sequences of <=%d parts of one 8-byte file: the 10 intervals on cut points {0,2,4,6,8} (disjoint, adjacent, identical, nested, overlapping), 3 short-reading readers, one part damaged in transit (the file then fails validation and is transmitted again), 4 parts of a same-size version with another hash, 3 parts of a version with another size; after every step: Scan, Received for every interval of every version, completion and retention checks", depth)
 }
